@@ -743,3 +743,82 @@ func VfC03_Names() {
 	vfAssert("C03.names.read-back", vfAnd(vfAnd(b2.LocalName == bname, ok && i2.LocalName == iname), vfAnd(f2.Params[0].LocalName == pname, vfAnd(m2.Globals[0].GlobalName == gname, f2.GlobalName == fname))))
 	vfAssert("C03.names.fixpoint", m2.String() == s)
 }
+
+// VfC03_Pairs: the constructor-side twin of C06 `ParsePairs`.  One module, two
+// functions whose instructions are built with the constructors over two
+// independently symbolic attribute sets (scalable or fixed vectors of one
+// symbolic length, element width, address space, the same identified struct):
+// icmp, fcmp, shufflevector, getelementptr (into the struct and into an
+// integer), zext, cmpxchg, alloca, icmp on pointers.  Once both functions are
+// built, every result type is the one LLVM's rules give for its own operands;
+// the module prints, the text is accepted, and the types read back agree.
+//
+//vf:unwind 400
+//vf:steps 100000000
+//vf:shards 4
+func VfC03_Pairs() {
+	nd := vfString("n", 1)
+	vfAssume(vfAnd(nd[0] >= '1', nd[0] <= '9'))
+	n := uint64(nd[0] - '0')
+	sets := [2]hC06Set{hC06NewSet("1"), hC06NewSet("2")}
+	m := ir.NewModule()
+	td := m.NewTypeDef("T", types.NewStruct(types.I32, types.I64))
+	var fns [2]*ir.Func
+	var results [2][]value.Value
+	for k := 0; k < 2; k++ {
+		s := sets[k]
+		it := types.NewInt(s.w)
+		vec := func(el types.Type) *types.VectorType {
+			return &types.VectorType{Len: n, ElemType: el, Scalable: s.scal}
+		}
+		ptr := func(el types.Type) *types.PointerType {
+			return &types.PointerType{ElemType: el, AddrSpace: types.AddrSpace(s.as)}
+		}
+		f := m.NewFunc("f"+string(rune('1'+k)), types.Void,
+			ir.NewParam("a", vec(it)), ir.NewParam("b", vec(it)), ir.NewParam("x", vec(types.Float)), ir.NewParam("y", vec(types.Float)),
+			ir.NewParam("p", ptr(td)), ir.NewParam("q", ptr(it)))
+		b := f.NewBlock("entry")
+		a, bb, x, y, p, q := f.Params[0], f.Params[1], f.Params[2], f.Params[3], f.Params[4], f.Params[5]
+		zero, one := constant.NewInt(types.I32, 0), constant.NewInt(types.I32, 1)
+		var r []value.Value
+		r = append(r, b.NewICmp(enum.IPredEQ, a, bb))
+		r = append(r, b.NewFCmp(enum.FPredOEQ, x, y))
+		r = append(r, b.NewShuffleVector(a, bb, constant.NewZeroInitializer(vec(types.I32))))
+		r = append(r, b.NewGetElementPtr(td, p, zero, one))
+		r = append(r, b.NewGetElementPtr(it, q, one))
+		r = append(r, b.NewZExt(a, vec(types.I64)))
+		r = append(r, b.NewCmpXchg(q, constant.NewInt(it, 0), constant.NewInt(it, 1), enum.AtomicOrderingSequentiallyConsistent, enum.AtomicOrderingSequentiallyConsistent))
+		al := b.NewAlloca(td)
+		al.AddrSpace = types.AddrSpace(s.as)
+		r = append(r, al)
+		r = append(r, b.NewICmp(enum.IPredEQ, p, constant.NewNull(ptr(td))))
+		b.NewRet(nil)
+		fns[k], results[k] = f, r
+	}
+	vfReach("C03.pairs.built")
+	for k := 0; k < 2; k++ {
+		want := hC06SetWant(n, sets[k], td)
+		for j := range want {
+			vfAssert("C03"+hC06PairIDs[j], hC06Same(results[k][j].Type(), want[j]))
+		}
+	}
+	s := m.String()
+	vfObserveStr("printed", s)
+	m2, err := ParseString("t.ll", s)
+	vfAssert("C03.pairs.reparses", err == nil)
+	if err != nil {
+		return
+	}
+	for k := 0; k < 2; k++ {
+		want := hC06SetWant(n, sets[k], m2.TypeDefs[0])
+		insts := m2.Funcs[k].Blocks[0].Insts
+		vfAssert("C03.pairs.count", len(insts) == len(want))
+		if len(insts) != len(want) {
+			return
+		}
+		for j := range want {
+			vfAssert("C03.pairs.read-back", hC06Same(insts[j].(interface{ Type() types.Type }).Type(), want[j]))
+		}
+	}
+	vfAssert("C03.pairs.fixpoint", m2.String() == s)
+}
